@@ -8,6 +8,9 @@ import BumpProof.Lemmas.Hist2Fail
 import BumpProof.Lemmas.Hist2Run
 import BumpProof.Lemmas.Hist2Ex
 import BumpProof.Lemmas.Hist2Claim
+import BumpProof.Lemmas.Hist2Prep
+import BumpProof.Lemmas.Hist2Adv
+import BumpProof.Lemmas.Hist2Low
 
 set_option linter.unusedSimpArgs false
 set_option linter.unusedVariables false
@@ -432,6 +435,72 @@ theorem claimed_ops_inert_reachable (hc : CfgOK cfg) {g g' : GState} (h : Reacha
   · unfold curPos; rw [hst.1, hst.2.1]
   · unfold stats; rw [hst.1, hst.2.1]
 
+/-- CLAIM … CLAIM END, over all histories.  From ANY reachable state `g`: take a claim guard, run ANY finite covered
+    history `w` through the guard that never ends the claim (`Above`: the region stack never drops below the claim
+    frame — inner scopes, nested claims, aligned regions, chunk growth, operations addressed to the claimed
+    original … are all allowed) and is back at the level of the claim at its end (scopes opened through the guard
+    were closed), then drop the guard.  Then THE ORIGINAL HANDLE CONTINUES EXACTLY WHERE THE GUARD STOPPED:
+    * the final state `g3` is the state `g2` the guard stopped in — same chunks, current chunk, positions, bytes,
+      live blocks, ids, checkpoints, prepared allocation — with only the claim frame removed;
+    * its open regions, marks and minimum alignment are those of `g` before the claim; every chunk `g` had is
+      still in place and nothing was released in between;
+    * every block that was live in `g` and was neither freed / reallocated nor written through the guard is live
+      with unchanged bytes; `g3` is reachable. -/
+theorem claim_resumes (hc : CfgOK cfg) {g g1 g2 g3 : GState} (h : Reachable cfg g)
+    {o1 o3 : Out} {q1 q3 : List BaseReq} {w : List (Op × List BaseResp)}
+    (h1 : step cfg g .claim [] = .ok (g1, o1, q1))
+    (hcov : AllCovered w) (henv : RunEnvOK cfg g1 w) (hrun : runOps cfg g1 w = .ok g2)
+    (habove : Above cfg g1.s.frames g1 w) (hbal : g2.s.frames = g1.s.frames)
+    (h3 : step cfg g2 .claimEnd [] = .ok (g3, o3, q3)) :
+    (g3.s.chunks = g2.s.chunks ∧ g3.s.cur = g2.s.cur ∧ g3.s.live = g2.s.live ∧ g3.s.nextId = g2.s.nextId ∧
+      g3.s.userCps = g2.s.userCps ∧ g3.s.prepared = g2.s.prepared ∧ (∀ a, readByte g3.s a = readByte g2.s a)) ∧
+    (g3.s.frames = g.s.frames ∧ g3.marks = g.marks ∧ g3.s.minAlign = g.s.minAlign) ∧
+    ChunksCov g.s g3.s ∧ (∀ log, runLog cfg g1 w = .ok (g2, log) → logReleases log = []) ∧ q1 = [] ∧ q3 = [] ∧
+    (∀ b ∈ g.s.live, C02.KeptThrough cfg b g1 w →
+      b ∈ g3.s.live ∧ ∀ k, k < b.size → readByte g3.s (b.addr + k) = readByte g.s (b.addr + k)) ∧
+    Reachable cfg g3 := by
+  have hi := h.inv hc
+  obtain ⟨e1, _⟩ := claim_form (step_ok h1).1
+  have hi1 : Inv cfg g1 := inv_step (op := .claim) rfl hi (envOK_nil g) h1
+  have hf1 : g1.s.frames = .claim :: g.s.frames := by rw [e1]; rfl
+  have hne : g1.s.frames ≠ [] := by rw [hf1]; exact List.cons_ne_nil _ _
+  have hin1 : Inside g1.s.frames g1.marks g1.s.minAlign g.s g1 := by
+    refine ⟨⟨[], [], rfl, rfl, rfl, rfl⟩, ?_⟩
+    rw [e1]; exact ChunksCov.refl _
+  have hin2 := inside_runOps w g1 g2 (Or.inl hne) hin1 habove hrun
+  obtain ⟨hm2, hma2⟩ := hin2.at_base hbal
+  obtain ⟨rest, xf, e3⟩ := claimEnd_form (step_ok h3).1
+  have xf' : Frame.claim :: rest = .claim :: g.s.frames := (show g2.s.frames = _ from xf).symm.trans (hbal.trans hf1)
+  simp only [List.cons.injEq, true_and] at xf'
+  subst xf'
+  have hreach1 : Reachable cfg g1 := h.snoc (op := .claim) rfl (envOK_nil g) h1
+  have hreach2 : Reachable cfg g2 := hreach1.append hcov henv hrun
+  have hm1 : g1.marks = g.marks := by rw [e1]; rfl
+  have hma1 : g1.s.minAlign = g.s.minAlign := by rw [e1]; rfl
+  subst e3
+  refine ⟨⟨rfl, rfl, rfl, rfl, rfl, rfl, fun a => rfl⟩, ⟨rfl, hm2.trans hm1, hma2.trans hma1⟩, hin2.cov,
+    fun log hlog => inside_no_release w g1 g2 log (Or.inl hne) hin1 habove hlog, ?_, ?_, ?_,
+    hreach2.snoc (op := .claimEnd) rfl (envOK_nil g2) h3⟩
+  · rw [(step_ok h1).2.2, e1]; rfl
+  · rw [(step_ok h3).2.2]; rfl
+  · intro b hb hk
+    obtain ⟨hb2, hby2⟩ := C02.history_live_bytes w g1 g2 b hi1 hcov henv hrun hk
+    refine ⟨hb2, fun k hkk => ?_⟩
+    have : readByte g1.s (b.addr + k) = readByte g.s (b.addr + k) := by rw [e1]; rfl
+    rw [← this, ← hby2 k hkk]; rfl
+
+/-- TARGET (not proved): the claim is TRANSPARENT — for a history `w` without operations on the claimed handle,
+    running `claim :: w ++ [claimEnd]` and running `w` alone from the same reachable state end in the same state.
+    `claim_resumes` shows that the guard's work is handed back unchanged; missing for this stronger statement is that
+    every model function is independent of the `frames` field below the top region (a "frame-suffix irrelevance"
+    lemma for each of the ~25 model functions and then for each constructor of `stepCore`). -/
+def claim_is_transparent_target : Prop :=
+  ∀ (cfg : Cfg) (g g3 : GState) (w : List (Op × List BaseResp)), CfgOK cfg → Reachable cfg g → AllCovered w →
+    (∀ x ∈ w, ∀ op, x.1 ≠ .onClaimed op) →
+    runOps cfg g ((.claim, []) :: w ++ [(.claimEnd, [])]) = .ok g3 →
+    (∀ g1 o q, step cfg g .claim [] = .ok (g1, o, q) → Above cfg g1.s.frames g1 w) →
+    runOps cfg g w = .ok g3
+
 /-- non-vacuity: `exG3`, then `claim`: a reachable state with an open claim; `allocate` on the original handle -/
 def exClaimOps : List (Op × List BaseResp) := exOps3 ++ [(.claim, [])]
 
@@ -439,6 +508,15 @@ set_option maxRecDepth 1000000 in
 example : ∃ g g' reqs, Reachable exCfg g ∧ EnvOK exCfg g [] ∧
     step exCfg g (.onClaimed (.allocate exL1 false .plain)) [] = .ok (g', .err .claimed, reqs) :=
   ⟨_, _, _, ⟨exClaimOps, coveredCheck_sound (by decide), runEnvCheck_sound _ _ (by rfl), rfl⟩, envOK_nil _, rfl⟩
+
+set_option maxRecDepth 1000000 in
+/-- hypotheses of `claim_resumes`: the example history run through a claim guard -/
+example : ∃ g1 g2 g3 o1 o3 q1 q3, step exCfg exG3 .claim [] = .ok (g1, o1, q1) ∧
+    AllCovered exInner ∧ RunEnvOK exCfg g1 exInner ∧ runOps exCfg g1 exInner = .ok g2 ∧
+    Above exCfg g1.s.frames g1 exInner ∧ g2.s.frames = g1.s.frames ∧
+    step exCfg g2 .claimEnd [] = .ok (g3, o3, q3) :=
+  ⟨_, _, _, _, _, _, _, rfl, exInner_covered, runEnvCheck_sound _ _ (by rfl), rfl,
+    aboveCheck_sound _ _ (by rfl), rfl, rfl⟩
 
 end C14
 
@@ -549,3 +627,187 @@ example : ∃ g1 g2 g3 o1 o3 q1 q3, step exCfg exG3 (.alignedEnter 1) [] = .ok (
     aboveCheck_sound _ _ (by rfl), rfl, rfl⟩
 
 end C18
+
+/-! # C15 — exclusive-borrow collections use free space without moving the pointer -/
+
+namespace C15
+open Arena Arena.Hist Ledger Rs
+
+variable {cfg : Cfg}
+
+/-- THE LIFE OF AN UNFINISHED COLLECTION, over all histories.  From any reachable state `g` whose current chunk is
+    `i`: ANY finite history of `prepare` / `prepareSlice` (creation and every later growth, also into bigger
+    chunks that the base allocator has to provide) and `fillPrepared` steps, in any order and number, ending in `g2`;
+    then the collection is dropped without being finalised (`abandonPrepared`), giving `g3`.  In `g2` and in `g3`:
+    * the bump position of every chunk up to and including chunk `i` is what it was in `g` (at most a later chunk
+      became the current one), every chunk of `g` is still in place;
+    * the live blocks are exactly those of `g` and every byte of every one of them is unchanged;
+    * regions, marks and minimum alignment are those of `g`; after the drop no prepared allocation is outstanding;
+    * `g3` is reachable. -/
+theorem prepared_region_positions (hc : CfgOK cfg) {g g2 g3 : GState} (h : Reachable cfg g) {i : Nat}
+    (hcur : g.s.cur = .chunk i) {w : List (Op × List BaseResp)} {o3 : Out} {q3 : List BaseReq}
+    (hcov : AllCovered w) (henv : RunEnvOK cfg g w) (hpf : AllPrepFill w) (hrun : runOps cfg g w = .ok g2)
+    (h3 : step cfg g2 .abandonPrepared [] = .ok (g3, o3, q3)) :
+    (PrepKept i g.s g2.s ∧ g2.marks = g.marks ∧
+      ∀ b ∈ g.s.live, ∀ k, k < b.size → readByte g2.s (b.addr + k) = readByte g.s (b.addr + k)) ∧
+    (PrepKept i g.s g3.s ∧ g3.marks = g.marks ∧ g3.s.prepared = none ∧
+      ∀ b ∈ g.s.live, ∀ k, k < b.size → readByte g3.s (b.addr + k) = readByte g.s (b.addr + k)) ∧
+    Reachable cfg g3 := by
+  have hi := h.inv hc
+  obtain ⟨hi2, k2, m2, b2⟩ := prepKept_runOps (i := i) (s0 := g.s) (m0 := g.marks) w g g2 hi hcov henv hpf hrun
+    (PrepKept.refl hcur) rfl (fun _ _ _ _ => rfl)
+  have e3 := abandonPrepared_form (step_ok h3).1
+  have hreach2 : Reachable cfg g2 := h.append hcov henv hrun
+  refine ⟨⟨k2, m2, b2⟩, ?_, hreach2.snoc (op := .abandonPrepared) rfl (envOK_nil g2) h3⟩
+  subst e3
+  exact ⟨⟨k2.pos, k2.live, k2.frames, k2.minAlign, k2.cov, k2.cur⟩, m2, rfl, b2⟩
+
+/-- non-vacuity: a `MutBumpVec<u64>` created in `exG3` with room for 4 elements, filled with 2, grown to 100
+    elements (needs a second chunk, granted by the base allocator), filled with 3 -/
+def exPrepOps : List (Op × List BaseResp) :=
+  [(.prepareSlice 8 8 4 false, []), (.fillPrepared 2 0, []), (.prepareSlice 8 8 100 false, [.granted 0x20000 1008]),
+   (.fillPrepared 3 0, [])]
+
+set_option maxRecDepth 1000000 in
+example : ∃ g2 g3 o3 q3, Reachable exCfg exG3 ∧ exG3.s.cur = .chunk 0 ∧ AllCovered exPrepOps ∧
+    RunEnvOK exCfg exG3 exPrepOps ∧ AllPrepFill exPrepOps ∧ runOps exCfg exG3 exPrepOps = .ok g2 ∧
+    step exCfg g2 .abandonPrepared [] = .ok (g3, o3, q3) ∧ g2.s.cur = .chunk 1 :=
+  ⟨_, _, _, _, exReach3', rfl, coveredCheck_sound (by decide), runEnvCheck_sound _ _ (by rfl),
+    (by intro x hx; simp only [exPrepOps, List.mem_cons, List.not_mem_nil, or_false] at hx
+        rcases hx with rfl | rfl | rfl | rfl <;> rfl), rfl, rfl, rfl⟩
+
+end C15
+
+/-! # C13 — the allocated byte count decreases only by reclaiming, leaving a scope, or a reset -/
+
+namespace C13
+open Arena Arena.Hist Ledger Rs
+
+variable {cfg : Cfg}
+
+/-- FROM ANY REACHABLE STATE: every operation that is NOT one of `Op.mayReclaim` — i.e. everything except `drop`,
+    `deallocate` / `shrink` (not through the opt-out wrappers), `shrink_slice`, `scopeExit`, `scopedAlignedExit`,
+    `reset_to`, `reset`, `reset_to_start` — never makes `stats().allocated()` smaller.  In particular `allocate`,
+    the typed allocations, `grow` (it never gives anything back), `reserve`, `prepare*`, `fillPrepared`,
+    `commit*`, `abandonPrepared`, `write`, `split`, `checkpoint`, `scopeEnter`, `claim` / `claimEnd`, everything on
+    the claimed handle, `aligned*` entry AND exit, `with_settings`, the constructors, `WithoutDealloc::deallocate`
+    and `WithoutShrink::shrink`.  (`alloc_try_with` is not covered here: see the target below.) -/
+theorem never_decreases (hc : CfgOK cfg) {g g' : GState} (h : Reachable cfg g) {op : Op} {resps : List BaseResp}
+    {out : Out} {reqs : List BaseReq} (hcov : op.Covered) (henv : EnvOK cfg g resps)
+    (hnr : op.mayReclaim = false) (hnt : op.isTryWith = false)
+    (hs : step cfg g op resps = .ok (g', out, reqs)) :
+    (stats cfg g.s).allocated ≤ (stats cfg g'.s).allocated :=
+  stepCore_adv (g := install g resps) hcov ((h.inv hc).install resps) henv.1 hnr hnt (step_ok hs).1
+
+/-- … put the other way round: if a step makes the allocated byte count strictly smaller, the operation is one of
+    the reclaiming ones (partial: or `alloc_try_with`) -/
+theorem allocated_decreases_only_by_partial (hc : CfgOK cfg) {g g' : GState} (h : Reachable cfg g) {op : Op}
+    {resps : List BaseResp} {out : Out} {reqs : List BaseReq} (hcov : op.Covered) (henv : EnvOK cfg g resps)
+    (hs : step cfg g op resps = .ok (g', out, reqs))
+    (hdec : (stats cfg g'.s).allocated < (stats cfg g.s).allocated) :
+    op.mayReclaim = true ∨ op.isTryWith = true := by
+  cases h1 : op.mayReclaim
+  · cases h2 : op.isTryWith
+    · have := never_decreases hc h hcov henv h1 h2 hs
+      omega
+    · exact Or.inr rfl
+  · exact Or.inl rfl
+
+/-- TARGET (not proved): the same without the `alloc_try_with` alternative.  In the model `alloc_try_with(_mut)` never
+    decreases the count either (`Ok`: the position ends past the value, which lies past the old position; `Err`:
+    the checkpoint taken before the allocation is restored, or nothing is undone).  Missing: for the `Ok` path
+    with shrinking, that the block the fast / slow path returned lies on the free side of the OLD position of the
+    chunk that is current at the end (the `RAt` bookkeeping of `Lemmas/HistOpsTry.lean`, plus monotonicity of the
+    current-chunk index across the closure's own allocation). -/
+def allocated_decreases_only_by_target : Prop :=
+  ∀ (cfg : Cfg) (g g' : GState) (op : Op) (resps : List BaseResp) (out : Out) (reqs : List BaseReq),
+    CfgOK cfg → Reachable cfg g → op.Covered → EnvOK cfg g resps → step cfg g op resps = .ok (g', out, reqs) →
+    (stats cfg g'.s).allocated < (stats cfg g.s).allocated → op.mayReclaim = true
+
+/-- OPT-OUT of deallocation, in every history: with `DEALLOCATES = false`, or through `WithoutDealloc`, a
+    `deallocate` never changes any statistic (it is valid, and only the ghost block is forgotten) -/
+theorem deallocate_optout_reachable {g g' : GState} {b : Nat} {via : Via} {resps : List BaseResp} {out : Out}
+    {reqs : List BaseReq} (hopt : via = .withoutDealloc ∨ cfg.deallocates = false)
+    (hs : step cfg g (.deallocate b via) resps = .ok (g', out, reqs)) : stats cfg g'.s = stats cfg g.s :=
+  stats_deallocate_optout (g := install g resps) hopt (step_ok hs).1
+
+/-- OPT-OUT of shrinking, in every history: with `SHRINKS = false`, or through `WithoutShrink`, a `shrink` never
+    decreases the allocated byte count (it may allocate when the alignment is raised), and with `SHRINKS = false`
+    `shrink_slice` changes no statistic.  (This proves `C13.shrink_optout_never_decreases_target` for reachable states.) -/
+theorem shrink_optout_reachable (hc : CfgOK cfg) {g g' : GState} (h : Reachable cfg g) {b : Nat} {L : Layout} {via : Via}
+    {resps : List BaseResp} {out : Out} {reqs : List BaseReq} (henv : EnvOK cfg g resps)
+    (hopt : via = .withoutShrink ∨ cfg.shrinks = false)
+    (hs : step cfg g (.shrink b L via) resps = .ok (g', out, reqs)) :
+    (stats cfg g.s).allocated ≤ (stats cfg g'.s).allocated := by
+  rcases hopt with rfl | hsh
+  · exact never_decreases hc h (op := .shrink b L .withoutShrink) rfl henv rfl rfl hs
+  · exact adv_shrink_optout (g := install g resps) ((h.inv hc).install resps) henv.1 hsh (step_ok hs).1
+
+theorem shrinkSlice_optout_reachable {g g' : GState} {b n : Nat} {resps : List BaseResp} {out : Out}
+    {reqs : List BaseReq} (hsh : cfg.shrinks = false)
+    (hs : step cfg g (.shrinkSlice b n) resps = .ok (g', out, reqs)) : stats cfg g'.s = stats cfg g.s :=
+  stats_shrinkSlice_optout (g := install g resps) hsh (step_ok hs).1
+
+/-- non-vacuity: a `grow` of the newest block of `exG3` (in place) and a `deallocate` through `WithoutDealloc` -/
+example : ∃ g' out reqs, Reachable exCfg exG3 ∧ (Op.grow 1 { size := 80, align := 16 } false .plain).Covered ∧
+    EnvOK exCfg exG3 [] ∧ (Op.grow 1 { size := 80, align := 16 } false .plain).mayReclaim = false ∧
+    step exCfg exG3 (.grow 1 { size := 80, align := 16 } false .plain) [] = .ok (g', out, reqs) :=
+  ⟨_, _, _, exReach3', rfl, envOK_nil _, rfl, rfl⟩
+
+example : ∃ g' out reqs, step exCfg exG3 (.deallocate 1 .withoutDealloc) [] = .ok (g', out, reqs) := ⟨_, _, _, rfl⟩
+
+/-- the hypothesis of `allocated_decreases_only_by_partial` is met by a plain `deallocate` of the newest block -/
+example : ∃ g' out reqs, step exCfg exG3 (.deallocate 1 .plain) [] = .ok (g', out, reqs) ∧
+    (stats exCfg g'.s).allocated < (stats exCfg exG3.s).allocated := ⟨_, _, _, rfl, by decide⟩
+
+end C13
+
+/-! # C10 — no fault on the claimed handle when the base allocator hands out user-space addresses -/
+
+namespace C10
+open Arena Arena.Hist Ledger Rs
+
+variable {cfg : Cfg}
+
+/-- when every block granted during the history ends at or below `2^62` (`ReachableLow`: the stronger environment
+    hypothesis, true of every user-space address), every chunk of every reachable state does -/
+theorem reachable_chunks_low (hc : CfgOK cfg) {g : GState} (h : ReachableLow cfg g) :
+    ∀ c ∈ g.s.chunks, c.base + c.size ≤ 2 ^ 62 := h.chunksLow hc
+
+/-- … so no non-empty live block sits at the address of the static dummy chunk header (`dummyAddr = 2^62 + 80`):
+    `DummyApart` restricted to non-empty blocks -/
+theorem reachable_dummyApart_nonempty (hc : CfgOK cfg) {g : GState} (h : ReachableLow cfg g) :
+    ∀ blk ∈ g.s.live, 0 < blk.size → isLast cfg { g.s with cur := .claimed } blk.addr blk.size = false :=
+  h.dummyApart_nonempty hc
+
+/-- THE THREE CASES `C10.reachable_noFault_partial` LEAVES OPEN — `grow` / `deallocate` / `shrink` of a block through
+    the CLAIMED handle — never end in an overflow, a failed debug assertion or undefined behaviour, from any state
+    reached with low grants, PROVIDED the addressed block is not zero-sized (partial: see the target below). -/
+theorem reachable_noFault_claimed_blocks_partial (hc : CfgOK cfg) {g : GState} (h : ReachableLow cfg g) {b : Nat}
+    {op : Op} {resps : List BaseResp}
+    (hop : (∃ L z via, op = .grow b L z via) ∨ (∃ via, op = .deallocate b via) ∨ (∃ L via, op = .shrink b L via))
+    (hnz : ∀ blk, findBlock g.s b = .ok blk → 0 < blk.size) :
+    ∀ f, step cfg g (.onClaimed op) resps = .error f → ¬ Fault.isBug f := by
+  intro f hf hb
+  refine noFault_onClaimed_block' (g := install g resps) ((h.reachable.inv hc).install resps) (b := b) ?_ hop f
+    (step_bug hf hb) hb
+  intro blk hblk
+  have hblk' : findBlock g.s b = .ok blk := hblk
+  exact h.dummyApart_nonempty hc blk (Mem.findBlock_ok hblk').1 (hnz blk hblk')
+
+/-- TARGET (not proved): the same for zero-sized blocks, which together with `C10.reachable_noFault_partial` would be
+    the full no-fault theorem.  Missing: `Inv` (frozen) says nothing about the ADDRESS of a zero-sized live block
+    (`LiveOK.placed` speaks about non-empty blocks only); one needs the additional invariant "every live block,
+    also an empty one, lies inside a chunk", preserved by all constructors that register blocks. -/
+def reachable_noFault_claimed_blocks_target : Prop :=
+  ∀ (cfg : Cfg) (g : GState) (b : Nat) (op : Op) (resps : List BaseResp), CfgOK cfg → ReachableLow cfg g →
+    ((∃ L z via, op = .grow b L z via) ∨ (∃ via, op = .deallocate b via) ∨ (∃ L via, op = .shrink b L via)) →
+    ∀ f, step cfg g (.onClaimed op) resps = .error f → ¬ Fault.isBug f
+
+set_option maxRecDepth 1000000 in
+/-- non-vacuity: the state after `create, allocate 24, allocate 40, claim` is reached with low grants; block 1 has 40 bytes -/
+example : ∃ g, ReachableLow exCfg g ∧ ∃ blk, findBlock g.s 1 = .ok blk ∧ 0 < blk.size :=
+  ⟨_, ⟨C14.exClaimOps, coveredCheck_sound (by decide), runEnvCheck_sound _ _ (by rfl), lowCheck_sound (by decide), rfl⟩,
+    _, rfl, by decide⟩
+
+end C10
